@@ -244,8 +244,7 @@ class Run:
             elif mode == "paths":
                 kw.update(action_constraint=g.get("emit", "EmitAll"))
             elif mode == "walks":
-                kw.update(action_constraint=g.get("emit", "EmitEnd"))
-                kw.pop("constraint")
+                kw.pop("constraint")       # NextWalk prints each walk itself, once (see WalkEnd in the Gen modules)
                 sim = f"num={g['num']}"
             nxt = g.get("next", "NextWalk" if mode == "walks" else "Next")
             cfg = write_cfg(f"{self.prop.id}_{g['name']}", consts, init=g.get("init", "Init"), next=nxt, **kw)
@@ -254,7 +253,7 @@ class Run:
                 cfg,
                 workers=1,
                 simulate=sim,
-                depth=g.get("depth") if sim else None,
+                depth=(g.get("depth") + 3) if sim else None,
                 seed=(self.seed + g.get("seed_offset", 0)) if (sim or g.get("emit") == "EmitSample") else None,
                 timeout=g.get("timeout", 900),
                 env=g.get("env"),
